@@ -448,6 +448,10 @@ func (db *RockDB) HDel(ts int64, key []byte, args ...[]byte) (int64, error) {
 		if err := common.CheckKeySubKey(rk, args[i]); err != nil {
 			return 0, err
 		}
+		if keyInfo.Expired {
+			// the fields of an expired hash are gone for every command
+			continue
+		}
 
 		ek = hEncodeHashKey(table, rk, args[i])
 		oldV, err = db.GetBytesNoLock(ek)
